@@ -273,7 +273,13 @@ def canon(roots):
         if isinstance(v, dict) and 'id' in v:
             if v['id'] not in m:
                 m[v['id']] = len(m)
-            return {'id': m[v['id']], 'k': v['k'], 'f': [[k, go(x)] for k, x in v['f']]}
+            fs = v['f']
+            if v['k'].startswith('region:'):
+                # attributes other than _params/meta/visual have no intrinsic order: sort them by name
+                names = [k for k, _ in fs]
+                cut = names.index('visual') + 1 if 'visual' in names else len(fs)
+                fs = fs[:cut] + sorted(fs[cut:], key=lambda kv: kv[0])
+            return {'id': m[v['id']], 'k': v['k'], 'f': [[k, go(x)] for k, x in fs]}
         if isinstance(v, dict) and 'n' in v and v['n'] != 'nan':
             return {'n': frac(Fraction(v['n']))}
         return v
@@ -720,36 +726,46 @@ class Check(PropertyCheck):
     id = 'C16'
     lean_targets = ['RegionsVerif.Props.C16']
     namespaces = ['RegionsVerif.Props.C16']
-    rule = ('every region class (11 pixel incl. regular polygon / annuli / text / point / line / compound, 11 sky) '
-            'x random parameters (ints, dyadics, reals, zeros, tiny and 1e6 magnitudes; deg/arcmin/arcsec/rad) '
-            'x {copy, deepcopy, copy(**changes) of every subset size} x 1-8 in-place mutations of the copy or of '
-            'the original (attribute assignment, meta/visual dict set/del/clear/invalid key, nested tag list '
-            'edits, coordinate-array element writes, in-place Quantity writes, SkyCoord item assignment, '
-            'nested compound operands); single-field perturbations of EVERY field (each shape parameter, each '
-            'meta / visual key, class, frame, vertex count) at relative sizes 1e-7..1e-3 and exactly inside / '
-            'outside / in the asymmetric part of the allclose band; unit re-expressions; NaN parameters; '
-            'Regions lists x slices (None / negative / out-of-range / step) x append/extend/insert/pop/reverse '
-            'sequences on either list. Non-trivial = the program reached its final snapshot.')
+    rule = ('all 23 concrete region classes (12 pixel incl. regular polygon / annuli / text / point / line / compound, '
+            '11 sky) x random parameters (Python ints, dyadics, reals, zeros, tiny and 1e6 magnitudes; angles in '
+            'deg/arcmin/arcsec/rad; icrs/fk5/galactic) x {copy, deepcopy, copy(**changes) with 1-3 named fields, plain-dict '
+            'meta, unexpected keyword} x 1-8 in-place mutations of the copy or of the original (attribute assignment, '
+            'meta/visual set/del/clear/invalid key/mapped key, nested tag-list edits, coordinate-array element writes incl. '
+            'out of range, in-place Quantity writes, SkyCoord item assignment, nested compound operands); SYSTEMATIC '
+            'single-field perturbations: every shape parameter x every mode of its kind (relative 1e-7..1e-3; exactly '
+            'inside / outside / in the asymmetric part of the allclose band; vertex count +-1 and 1-vs-n broadcast; frame; '
+            'unit change with perturbation), every meta / visual key (changed value, removed, added), class swap, unit '
+            're-expression, identical rebuild (also with reordered meta keys), NaN parameter; nested-operand perturbations '
+            'for compounds; Regions lists (0-6 regions) x slices (None / negative / out-of-range / step incl. 0) or copy() x '
+            '1-8 append/extend/insert/pop/reverse/item edits on either list. Non-trivial = the program ran to its final '
+            'snapshot.')
     assumptions = [
-        'numpy allclose / broadcasting, astropy Quantity unit conversion and SkyCoord comparison behave as the '
-        'formulas in Impl/Value.lean (exact arithmetic; answers whose exact margin is within 1e-9 relative of a '
-        'tolerance boundary, and cross-unit equalities whose float conversion is inexact, are counted as '
-        'boundary-excepted and not compared)',
-        'copy.deepcopy is an isomorphic copy of the reachable object graph onto fresh objects (memo = sharing '
-        'inside one call is preserved); immutable scalars (float, int, str, bool, None, functions) have no identity',
-        'the tolerance of PixCoord equality is numpy\'s documented allclose rule |a-b| <= atol + rtol*|b| with '
-        'rtol = 1e-5, atol = 1e-8; "differs" for a pixel position means outside that band',
+        'numpy allclose / broadcasting of a length-1 axis, astropy Quantity unit conversion and SkyCoord comparison '
+        '(TypeError for non-equivalent frames, ValueError for shapes that do not broadcast) behave as the formulas in '
+        'Impl/Value.lean, evaluated in exact arithmetic; answers whose exact margin is within 1e-9 relative of a '
+        'tolerance boundary, and cross-unit equalities whose float conversion is inexact (always the case for rad), '
+        'are counted as boundary-excepted and not compared',
+        'copy.deepcopy is an isomorphic copy of the reachable object graph onto fresh objects (sharing inside one '
+        'call is preserved by its memo); immutable scalars (float, int, str, bool, None, functions) have no identity',
+        'the tolerance of PixCoord equality is numpy\'s allclose rule |a-b| <= atol + rtol*|b| with rtol = 1e-5, '
+        'atol = 1e-8 (exact values of those doubles); "differs" for a pixel position means outside that band',
         'meta / visual values are scalars or flat lists of scalars and contain no NaN',
-        'regular-polygon vertices and derived floats are not computed by the model (elided); their values are '
-        'checked by the oracle against a fresh construction',
+        'regular-polygon vertices and derived floats are not computed by the model (elided); the oracle checks them '
+        'against a fresh construction',
+        'descriptor validation (PositiveScalar, annulus order, ...) is C17\'s subject: generated values are valid, '
+        'and a value the real constructor refuses makes the case "unconstructible", not a disagreement',
     ]
     validated_only = [
-        'the object-graph walk (which attributes of a real region / SkyCoord are mutable objects) is the '
-        'harness\'s; the independent reach() walk over dict/list/ndarray(.base)/PixCoord/SkyCoord/frame/'
-        'representation objects is validation, not a theorem',
-        'SkyCoord internals: a SkyCoord is modelled as frame + longitude/latitude arrays; astropy\'s caches and '
-        'frame objects are covered only by the dynamic aliasing walk',
-        'float rounding of cross-unit Quantity comparison (theorem eq_unit_insensitive is in exact arithmetic)',
+        'which attributes of a real region / PixCoord / SkyCoord / Quantity are mutable objects (the object-graph '
+        'walk) is the harness\'s reading; the independent reach() walk over dict / list / ndarray (.base chain) / '
+        'PixCoord / SkyCoord / frame / representation / region objects is dynamic validation, not a theorem',
+        'SkyCoord is modelled as frame descriptor + longitude / latitude arrays; astropy\'s caches and frame '
+        'attribute objects are covered only by the dynamic aliasing walk',
+        'float rounding of cross-unit Quantity comparison (eq_unit_insensitive is a theorem of exact arithmetic)',
+        'values of RegularPolygonPixelRegion.vertices after copy / copy(radius=...) (trigonometry is not modelled)',
+        'that Regions.append/extend/insert/pop/reverse are the list operations of the model, and Python slice '
+        'semantics of sliceIdx (both by correspondence on every generated slice)',
+        'copy_changes_exact for PolygonPixelRegion with changes (only copy_eq_polygon, i.e. changes = {}, is a theorem)',
     ]
     parallel = True
 
@@ -758,14 +774,30 @@ class Check(PropertyCheck):
         g = Gen(rng)
         cases = []
         classes = list(ALL)
-        n_copy = 6 if tier == 'quick' else 60
-        n_eq = 14 if tier == 'quick' else 150
+        n_copy = 12 if tier == 'quick' else 80
+        rounds = 2 if tier == 'quick' else 12
+        modes = {'pix': ['rel', 'rel', 'inside', 'outside', 'band'],
+                 'pixarr': ['rel', 'inside', 'outside', 'band', 'count', 'count'],
+                 'sky': ['rel', 'frame'], 'skyarr': ['rel', 'frame', 'count', 'count']}
         for cls in classes:
             for _ in range(n_copy):
                 cases.append(self.gen_copy(g, cls))
-            for _ in range(n_eq):
-                cases.append(self.gen_eq(g, cls))
-        for _ in range(120 if tier == 'quick' else 3000):
+            for _ in range(rounds):
+                # every shape parameter x every perturbation mode of its kind
+                for name, kind in ALL[cls]:
+                    for m in modes.get(kind, [None, None]):
+                        cases.append(self.gen_eq(g, cls, 'param', name, m, descend=False))
+                # every meta / visual entry: changed value, removed key, added key
+                for which in ('meta', 'visual'):
+                    for m in ('value', 'removed', 'added'):
+                        cases.append(self.gen_eq(g, cls, which, None, m, descend=False))
+                for what in ('class', 'unit', 'unit', 'same', 'same', 'nan', 'refl'):
+                    cases.append(self.gen_eq(g, cls, what, descend=False))
+                if cls.startswith('Compound'):
+                    # perturbations of a field of a nested operand (any depth)
+                    for _ in range(12):
+                        cases.append(self.gen_eq(g, cls))
+        for _ in range(150 if tier == 'quick' else 4000):
             cases.append(self.gen_regions(g))
         return cases
 
@@ -802,7 +834,14 @@ class Check(PropertyCheck):
             i = r.randrange(info) if r.random() < 0.9 else info + 2       # out of range -> IndexError
             return {'do': 'mut', 'at': at, 'op': 'setidx', 'idx': i, 'val': {'t': 'num', 'v': fl(g.coord())}}
         if kind == 'qty':
-            return {'do': 'mut', 'at': at, 'op': 'set', 'key': 'value', 'val': {'t': 'num', 'v': fl(abs(g.angval()) + 1.0)}}
+            name = path[-1]
+            if name.startswith(('inner_', 'outer_')):
+                # in-place writes bypass the validators; keep inner < outer anyway so that later
+                # assignments stay valid whether or not the annulus order is validated on assignment
+                v = unfl(info['v']) * (0.75 if name.startswith('inner_') else 1.5)
+            else:
+                v = abs(g.angval()) + 1.0
+            return {'do': 'mut', 'at': at, 'op': 'set', 'key': 'value', 'val': {'t': 'num', 'v': fl(v)}}
         if kind == 'skyarr':
             return {'do': 'mut', 'at': at, 'op': 'skyset', 'idx': r.randrange(info),
                     'lon': fl(r.randint(0, 2800) / 8.0), 'lat': fl(r.randint(-700, 700) / 8.0)}
@@ -904,19 +943,19 @@ class Check(PropertyCheck):
         s = 1 if X >= 0 else -1
         return float(X + s * d)
 
-    def gen_eq(self, g, cls):
+    def gen_eq(self, g, cls, what=None, field=None, fmode=None, descend=True):
         r = g.rng
         a = g.region(cls)
         b = json.loads(json.dumps(a))
         kinds = dict(ALL[cls])
         options = ['same', 'unit', 'param', 'param', 'param', 'param', 'meta', 'visual', 'class', 'nan', 'refl']
-        what = r.choice(options)
+        what = what or r.choice(options)
         info = {'what': what}
 
         def leaf_region(spec):
             # descend into compound operands at random: perturb a field of a nested region
             path = []
-            while spec['cls'].startswith('Compound') and r.random() < 0.7:
+            while descend and spec['cls'].startswith('Compound') and r.random() < 0.7:
                 which = r.choice(['region1', 'region2'])
                 path.append(which)
                 spec = get_param(spec, which)
@@ -939,13 +978,13 @@ class Check(PropertyCheck):
                     exact = Fraction(v) * UNIT_FACTOR[q['unit']] / UNIT_FACTOR[un2]
                     set_param(tgt, n, {'t': 'qty', 'v': fl(float(exact)), 'unit': un2})
         if what == 'param':
-            n, k = r.choice(ALL[tcls])
+            n, k = (field, tk[field]) if field in tk else r.choice(ALL[tcls])
             info['field'] = n
             info['fkind'] = k
             v = get_param(tgt, n)
             if k == 'pix':
                 c = r.choice(['x', 'y'])
-                mode = r.choice(['rel', 'rel', 'inside', 'outside', 'band'])
+                mode = fmode or r.choice(['rel', 'rel', 'inside', 'outside', 'band'])
                 x = float(unfl(v[c]))
                 y = self.perturb_num(g, x, mode)
                 nv = dict(v, **{c: fl(y)})
@@ -955,7 +994,7 @@ class Check(PropertyCheck):
                 info.update(mode=mode, a=frac(Fraction(x)), b=frac(Fraction(y)))
             elif k == 'pixarr':
                 c = r.choice(['x', 'y'])
-                mode = r.choice(['rel', 'inside', 'outside', 'band', 'count', 'count'])
+                mode = fmode or r.choice(['rel', 'inside', 'outside', 'band', 'count', 'count'])
                 if mode == 'count':
                     nv = json.loads(json.dumps(v))
                     if r.random() < 0.3:
@@ -1005,7 +1044,7 @@ class Check(PropertyCheck):
                 set_param(tgt, n, {'t': 'qty', 'v': fl(y), 'unit': un2})
                 info.update(mode='rel')
             elif k in ('sky', 'skyarr'):
-                mode = r.choice(['rel', 'rel', 'frame', 'count' if k == 'skyarr' else 'rel'])
+                mode = fmode or r.choice(['rel', 'rel', 'frame', 'count' if k == 'skyarr' else 'rel'])
                 nv = json.loads(json.dumps(v))
                 if mode == 'frame':
                     nv['frame'] = r.choice([f for f in ['icrs', 'fk5', 'galactic'] if f != v['frame']])
@@ -1056,7 +1095,7 @@ class Check(PropertyCheck):
                 d = tgt[what]
                 keys = META_KEYS if what == 'meta' else VIS_KEYS
                 have = [k for k, _ in d['v']]
-                c = r.random()
+                c = {'value': 0.0, 'removed': 0.5, 'added': 0.9}.get(fmode, r.random())
                 if have and c < 0.45:
                     k = r.choice(have)
                     old = dict((kk, vv) for kk, vv in d['v'])[k]
@@ -1279,6 +1318,10 @@ class Check(PropertyCheck):
                 return V
             a_eq_b, b_eq_a, a_ne_b = out[2], out[3], out[4]
             same_expected = case['how'] != 'changes'
+            if isinstance(a_eq_b, bool) and isinstance(b_eq_a, bool) and a_eq_b != b_eq_a and 2 not in real['fragile']:
+                bad('eq_asymmetric', f'a==b {a_eq_b} but b==a {b_eq_a} (copy with changes)')
+            if isinstance(a_eq_b, bool) and a_ne_b != (not a_eq_b):
+                bad('ne_not_negation', f'a==b {a_eq_b} a!=b {a_ne_b}')
             if same_expected:
                 if a_eq_b is not True or b_eq_a is not True or a_ne_b is not False:
                     bad('copy_not_equal', f'a==b {a_eq_b}, b==a {b_eq_a}, a!=b {a_ne_b}',
@@ -1367,6 +1410,14 @@ class Check(PropertyCheck):
                     if case['side'] == 'S' and items(s0, 'T') != items(s1, 'T'):
                         bad('list_edit_leaked', f'editing the source changed the slice/copy '
                             f'{items(s0, "T")} -> {items(s1, "T")}')
+                    sl = next((st for st in prog if st['do'] == 'slice'), None)
+                    if sl is not None and sl.get('step') != 0:
+                        want = items(s0, 'S')[slice(sl.get('start'), sl.get('stop'), sl.get('step'))]
+                        if items(s0, 'T') != want:
+                            bad('slice_content', f'S[{sl.get("start")}:{sl.get("stop")}:{sl.get("step")}] holds '
+                                f'{items(s0, "T")}, expected {want}')
+                    elif items(s0, 'T') != items(s0, 'S'):
+                        bad('slice_content', f'copy holds {items(s0, "T")}, source {items(s0, "S")}')
                     ls = dict(s0['S']['f'])['regions']['id']
                     lt = dict(s0['T']['f'])['regions']['id']
                     if ls == lt or s0['S']['id'] == s0['T']['id']:
